@@ -24,7 +24,7 @@ import Cog.Sem.GoEqualsEnc
 import Cog.Sem.GoEqualsLeaf
 import Cog.Sem.GoEqualsDecode
 namespace Cog.Sem
-open Cog.IR Cog.Sem.GoVal
+open Cog.IR Cog.Sem.GoVal Cog.Sem.GoEq
 
 /-! ## full statements -/
 
@@ -129,7 +129,7 @@ theorem C13_equals_implies_enc_eqv_partial (fd fe : Nat) (ss : Schemas) (t : Ty)
     goEncode (canonNil a) = goEncode (canonNil b) :=
   goEquals_enc fe ss t a b wa wb na h
 
-theorem LeafDiff.symm {a b : GoVal} (h : LeafDiff a b) : LeafDiff b a := by
+theorem GoEq.LeafDiff.symm {a b : GoVal} (h : LeafDiff a b) : LeafDiff b a := by
   induction h with
   | bool h => exact .bool (Ne.symm h)
   | int h => exact .int (Ne.symm h)
